@@ -29,9 +29,6 @@ Lemma torn_write_keeps f d' :
   state_file (foldl fs_step f [WOpenTrunc; WData d']) = state_file f.
 Proof. done. Qed.
 
-(** All the steps of a sequence of writes, one after the other. *)
-Definition all_steps (ws : list entries) : list write_step := concat (map write_steps ws).
-
 Lemma all_steps_run ws : forall f, foldl fs_step f (all_steps ws) = file_writes f ws.
 Proof.
   induction ws as [|w ws IH]; intros f; [done|].
